@@ -326,7 +326,7 @@ func newEventFromUntrustedJSONV1(eventJSON []byte, roomVersion IRoomVersion) (PD
 		}
 	}
 
-	if err := json.Unmarshal(eventJSON, &res); err != nil {
+	if err := json.Unmarshal(eventJSON, res); err != nil {
 		return nil, err
 	}
 
@@ -388,7 +388,7 @@ func newEventFromUntrustedJSONV1(eventJSON []byte, roomVersion IRoomVersion) (PD
 
 func newEventFromTrustedJSONV1(eventJSON []byte, redacted bool, roomVersion IRoomVersion) (PDU, error) {
 	res := &eventV1{}
-	if err := json.Unmarshal(eventJSON, &res); err != nil {
+	if err := json.Unmarshal(eventJSON, res); err != nil {
 		return nil, err
 	}
 
@@ -407,7 +407,7 @@ func newEventFromTrustedJSONV1(eventJSON []byte, redacted bool, roomVersion IRoo
 
 func newEventFromTrustedJSONWithEventIDV1(eventID string, eventJSON []byte, redacted bool, roomVersion IRoomVersion) (PDU, error) {
 	res := &eventV1{}
-	if err := json.Unmarshal(eventJSON, &res); err != nil {
+	if err := json.Unmarshal(eventJSON, res); err != nil {
 		return nil, err
 	}
 
